@@ -1,16 +1,20 @@
 /-
-  Soundness of the enclosure oracle, part 10: the general (enclosure-based) path of `Spec.judgeElem`.
+  Soundness of the enclosure oracle, part 10: the general (enclosure-based) path of `Spec.judgeElem`,
+  without side hypotheses: the verdicts are statements about the real number `f(x)`.
 
   0. `realFn f` : the real function a `Spec.Fn` denotes (`exp`, `2^·`, `10^·`, `exp − 1`, `log`, `logb 2`,
-     `logb 10`, `log(1+·)`, `√`, `∛` is not used and set to 0)
-     `CertOk f n c e` : the checkable side conditions on the certified-logarithm brackets (`LogOk`), and for
-     `log1p` the domain condition −1 < X
-  1. `trueValue_sound` : trueValue f n c e = some (tn, t) → ∃ T, 0 < T ∧ T ∈ₛ t ∧ realFn f X = ±T  (sign tn)
+     `logb 10`, `log(1+·)`; roots are judged exactly by `rootOk`, not here)
+     `specialCase_none` : what `specialCase f (.fin n c e) = none` says (c ≠ 0, domain of the logarithms)
+  1. `trueValue_sound` : specialCase … = none → c < 10^35 → trueValue f n c e = some (tn, t) →
+                         ∃ T, 0 < T ∧ T ∈ₛ t ∧ realFn f X = ±T  (sign tn)
   2. `judgeElem_general` : on the general path `judgeElem` is
         NaN result → bad; wrong sign → bad; otherwise `withinUlps |r| t`
      `withinUlps_lo_pos` : an `.ok`/`.bad` verdict of `withinUlps` implies 0 < t.m.lo
-  3. `judge_bad_finite`, `judge_bad_zero`, `judge_bad_inf`, `judge_ok_finite` : meaning of the verdicts over the reals
-     (assembled in `D128/Props/C16.lean`)
+  3. `GeneralViolation F r` : the claim of C16 that the result `r` violates for the true value `F` — stated with
+     the unit in the last place `10^(ulpExp |F|)` at the real number itself, no enclosure in sight
+     `general_bad_sound` : `.bad` on the general path ⇒ `GeneralViolation (realFn f X) r`
+     `general_ok_sound`  : `.ok` on the general path ⇒ `GeneralOk (realFn f X) r t` (right sign, within one unit
+                           `10^eT` plus the enclosure width)
 -/
 import D128.Proofs.EnclosureUlps
 set_option autoImplicit false
@@ -18,7 +22,7 @@ set_option autoImplicit false
 namespace EnclPf
 open Spec Spec.Encl SpecRound
 
-/-! ## 0. the real functions -/
+/-! ## 0. the real functions, the domain -/
 
 /-- the real function denoted by `f` (roots are not judged through enclosures) -/
 noncomputable def realFn : Fn → ℝ → ℝ
@@ -33,20 +37,34 @@ noncomputable def realFn : Fn → ℝ → ℝ
   | .sqrt, _ => 0
   | .cbrt, _ => 0
 
-/-- side conditions that cannot be derived from the operand: the brackets returned by the `Float`-seeded
-    certified logarithm are of moderate magnitude; for `log1p` also the domain condition −1 < X -/
-def CertOk (f : Fn) (n : Bool) (c : Nat) (e : Int) : Prop :=
-  match f with
-  | .log | .log2 | .log10 => LogOk (c : ℚ) e
-  | .log1p => LogOk (c : ℚ) e ∧ LogOk (1 + (Val.fin n c e).toRat) 0 ∧ (n = true → |X n c e| < 1)
-  | _ => True
+/-- a finite operand that is not a special case: non-zero, and inside the domain of `log1p` -/
+theorem specialCase_none {f : Fn} {n : Bool} {c : Nat} {e : Int}
+    (h : specialCase f (.fin n c e) = none) :
+    c ≠ 0 ∧ (f = .log1p → n = true → mag c e < 1) := by
+  unfold specialCase at h
+  simp only at h
+  split at h
+  · cases f <;> simp at h
+  · rename_i hc
+    refine ⟨by simpa using hc, ?_⟩
+    rintro rfl rfl
+    simp only [if_true] at h
+    split at h
+    · exact absurd h (by simp)
+    · rename_i h1
+      split at h
+      · exact absurd h (by simp)
+      · rename_i h2
+        have h1' : mag c e ≠ 1 := by simpa using h1
+        exact lt_of_le_of_ne (not_lt.1 h2) h1'
 
 /-! ## 1. `trueValue` -/
 
 theorem trueValue_sound (f : Fn) (n : Bool) (c : Nat) (e : Int) (tn : Bool) (t : Sci)
-    (hc0 : c ≠ 0) (hc : c < 10 ^ 35) (hcert : CertOk f n c e)
+    (hspec : specialCase f (.fin n c e) = none) (hc : c < 10 ^ 35)
     (h : trueValue f n c e = some (tn, t)) :
     ∃ T : ℝ, 0 < T ∧ T ∈ₛ t ∧ realFn f (X n c e) = if tn then -T else T := by
+  obtain ⟨hc0, hdom⟩ := specialCase_none hspec
   cases f
   · obtain ⟨rfl, hs⟩ := trueValue_exp_sound n c e tn t hc0 hc h
     exact ⟨_, Real.exp_pos _, hs, by simp [realFn]⟩
@@ -55,10 +73,16 @@ theorem trueValue_sound (f : Fn) (n : Bool) (c : Nat) (e : Int) (tn : Bool) (t :
   · obtain ⟨rfl, hs⟩ := trueValue_exp10_sound n c e tn t hc0 hc h
     exact ⟨_, Real.rpow_pos_of_pos (by norm_num) _, hs, by simp [realFn]⟩
   · exact trueValue_expm1_sound n c e tn t hc0 hc h
-  · exact trueValue_log_sound n c e tn t hc0 hcert h
-  · exact trueValue_log2_sound n c e tn t hc0 hcert h
-  · exact trueValue_log10_sound n c e tn t hc0 hcert h
-  · exact trueValue_log1p_sound n c e tn t hc0 hc hcert.2.2 hcert.1 hcert.2.1 h
+  · exact trueValue_log_sound n c e tn t hc0 h
+  · exact trueValue_log2_sound n c e tn t hc0 h
+  · exact trueValue_log10_sound n c e tn t hc0 h
+  · refine trueValue_log1p_sound n c e tn t hc0 hc ?_ h
+    intro hn
+    have := hdom rfl hn
+    rw [abs_X]
+    have h' : ((mag c e : ℚ) : ℝ) < ((1 : ℚ) : ℝ) := by exact_mod_cast this
+    rw [mag_cast] at h'
+    simpa using h'
   · exact absurd h (by simp [trueValue])
   · exact absurd h (by simp [trueValue])
 
@@ -95,141 +119,197 @@ theorem withinUlps_lo_pos {r : Val} {t : Sci} {x : ℚ}
 
 /-! ## 3. meaning of the verdicts -/
 
-section
-variable (f : Fn) (n : Bool) (c : Nat) (e : Int) (ne : Bool) (tn : Bool) (t : Sci)
+/-- **What a `.bad` verdict on the general path asserts** about the result `r` and the true value `F = f(x)`
+    (a non-zero real): in the words of property C16,
+    * a NaN from a finite operand in the domain;
+    * a non-zero finite result with the wrong sign, or more than one unit in the last place (of the format at
+      `|F|`) from `F`, or finite although `|F| ≥ 10^(Emax+41)`, or non-zero although `|F| < 10^(Emin−40)`;
+    * a zero result although `|F|` exceeds one unit in the last place;
+    * an infinite result of the wrong sign, or although `|F| < 10^(Emax+30)`, or although `|F|` plus one unit
+      is below the largest finite Decimal `Cmax·10^Emax`. -/
+def GeneralViolation (F : ℝ) : Val → Prop
+  | .nan _ _ => True
+  | .inf rn => (rn = true ↔ 0 < F) ∨ |F| < (10 : ℝ) ^ (Emax + 30) ∨
+      |F| + (10 : ℝ) ^ (ulpExp |F|) < (Cmax : ℝ) * (10 : ℝ) ^ Emax
+  | .fin _ 0 _ => (10 : ℝ) ^ (ulpExp |F|) < |F|
+  | .fin rn (rc + 1) re =>
+      X rn (rc + 1) re * F < 0 ∨ (10 : ℝ) ^ (ulpExp |F|) < |X rn (rc + 1) re - F| ∨
+      (10 : ℝ) ^ (Emax + 41) ≤ |F| ∨ |F| < (10 : ℝ) ^ (Emin - 40)
+
+/-- what an `.ok` verdict asserts: the right sign and an error of at most one unit `10^eT` (the spacing of the
+    format at the upper end of the enclosure `t` of `|F|`) plus the width of the enclosure -/
+def GeneralOk (F : ℝ) (t : Sci) : Val → Prop
+  | .nan _ _ => False
+  | .inf rn => (rn = true ↔ F < 0) ∧
+      ((10 : ℝ) ^ (Emax + 37) ≤ |F| ∨
+       (Cmax : ℝ) * (10 : ℝ) ^ Emax ≤ |F| + ((t.m.hi : ℝ) - (t.m.lo : ℝ)) * (10 : ℝ) ^ t.k + (10 : ℝ) ^ (eT t))
+  | .fin _ 0 _ => |F| ≤ (10 : ℝ) ^ (eT t) + ((t.m.hi : ℝ) - (t.m.lo : ℝ)) * (10 : ℝ) ^ t.k
+  | .fin rn (rc + 1) re => (rn = true ↔ F < 0) ∧
+      |X rn (rc + 1) re - F| ≤ (10 : ℝ) ^ (eT t) + ((t.m.hi : ℝ) - (t.m.lo : ℝ)) * (10 : ℝ) ^ t.k
 
 theorem sciMem_pos {T : ℝ} {t : Sci} (hT : T ∈ₛ t) (hlo : 0 < t.m.lo) : 0 < T := by
   obtain ⟨z, hz, rfl⟩ := hT
   have : (0 : ℝ) < (t.m.lo : ℝ) := by exact_mod_cast hlo
   exact mul_pos (lt_of_lt_of_le this hz.1) (zpow_pos (by norm_num) _)
 
-/-- a finite non-zero result judged `.bad` on the general path: either its sign is strictly opposite to the
-    sign of the true value, or it is more than one ulp (spacing at the upper end of the enclosure, `eT`) away from
-    it, or the true value overflows (`≥ 10^(Emax+41)`), or the lower end of the enclosure underflows, or the
-    decimal exponent of the result is more than 120 away from the enclosure's -/
-theorem judge_bad_finite (rn : Bool) (rc : Nat) (re : Int) (msg : String)
-    (hspec : specialCase f (.fin n c e) = none)
-    (hexact : (if ne then exactCase f n c e else none) = none)
-    (hhuge : hugeArg f c e = false)
-    (htv : trueValue f n c e = some (tn, t))
-    (hc0 : c ≠ 0) (hc : c < 10 ^ 35) (hcert : CertOk f n c e) (hrc : rc ≠ 0)
-    (h : judgeElem f (.fin n c e) (.fin rn rc re) ne = .bad msg) :
-    X rn rc re * realFn f (X n c e) < 0 ∨
-    (10 : ℝ) ^ (eT t) < |X rn rc re - realFn f (X n c e)| ∨
-    (10 : ℝ) ^ (Emax + 41) ≤ |realFn f (X n c e)| ∨
-    (t.m.lo : ℝ) * (10 : ℝ) ^ t.k < (10 : ℝ) ^ (Emin - 40) ∨ (re - t.k > 120 ∨ re - t.k < -120) := by
-  obtain ⟨T, hTpos, hT, hF⟩ := trueValue_sound f n c e tn t hc0 hc hcert htv
-  rw [judgeElem_general f n c e _ ne tn t hspec hexact hhuge htv] at h
-  have hz : (Val.fin rn rc re).isZero = false := by
-    cases rc with
-    | zero => exact absurd rfl hrc
-    | succ k => rfl
-  simp only [Val.isNaN, Bool.false_eq_true, if_false, hz, Bool.not_false, Bool.true_and, Val.neg] at h
-  have hRabs : |X rn rc re| = (rc : ℝ) * (10 : ℝ) ^ re := abs_X rn rc re
-  have hRpos : (0 : ℝ) < (rc : ℝ) * (10 : ℝ) ^ re := by
-    have : (0 : ℝ) < (rc : ℝ) := by exact_mod_cast Nat.pos_of_ne_zero hrc
-    positivity
-  split at h
-  · -- wrong sign
-    rename_i hsgn
-    have hne : rn ≠ tn := by simpa using hsgn
-    left
-    rw [hF, X_eq]
-    cases rn <;> cases tn <;> simp_all
-  · -- withinUlps
-    have hw : withinUlps (.fin false rc re) t = .bad msg := h
-    have hlo := withinUlps_lo_pos (Or.inr ⟨msg, hw⟩)
-    rename_i hsgn
-    have hsame : rn = tn := by simpa using hsgn
-    have hval : X rn rc re - realFn f (X n c e) = (if tn then -1 else 1) * ((rc : ℝ) * (10 : ℝ) ^ re - T) := by
-      rw [hF, X_eq, hsame]; cases tn <;> simp only [if_true, if_false, Bool.false_eq_true] <;> ring
-    have habs : |X rn rc re - realFn f (X n c e)| = |(rc : ℝ) * (10 : ℝ) ^ re - T| := by
-      rw [hval, abs_mul]; cases tn <;> simp
-    have hFabs : |realFn f (X n c e)| = T := by
-      rw [hF]; cases tn <;> simp [abs_of_pos hTpos]
-    rw [habs, hFabs]
-    right
-    exact withinUlps_bad_sound0 hrc hlo hT hw
+theorem pow_ulp_le {T : ℝ} {t : Sci} (hT : T ∈ₛ t) (hlo : 0 < t.m.lo) :
+    (10 : ℝ) ^ (ulpExp T) ≤ (10 : ℝ) ^ (eT t) :=
+  zpow_le_zpow_right₀ (by norm_num) (ulpExp_le_eT hT hlo)
 
-/-- a zero result judged `.bad` on the general path: the true value is more than one subnormal ulp
-    (`10^Emin`) away from zero -/
-theorem judge_bad_zero (rn : Bool) (re : Int) (msg : String)
+/-- difference of a signed result and a signed true value of the same sign -/
+theorem abs_signed_sub (b : Bool) (R T : ℝ) :
+    |(if b then -R else R) - (if b then -T else T)| = |R - T| := by
+  cases b
+  · simp
+  · simp only [if_true]; rw [show -R - -T = -(R - T) by ring, abs_neg]
+
+theorem X_signed (n : Bool) (c : Nat) (e : Int) :
+    X n c e = if n then -((c : ℝ) * (10 : ℝ) ^ e) else (c : ℝ) * (10 : ℝ) ^ e := X_eq n c e
+
+section
+variable (f : Fn) (n : Bool) (c : Nat) (e : Int) (ne : Bool) (tn : Bool) (t : Sci)
+
+/-- **A reported violation is a true violation** (general path). -/
+theorem general_bad_sound (r : Val) (msg : String)
     (hspec : specialCase f (.fin n c e) = none)
     (hexact : (if ne then exactCase f n c e else none) = none)
     (hhuge : hugeArg f c e = false)
-    (htv : trueValue f n c e = some (tn, t))
-    (hc0 : c ≠ 0) (hc : c < 10 ^ 35) (hcert : CertOk f n c e)
-    (h : judgeElem f (.fin n c e) (.fin rn 0 re) ne = .bad msg) :
-    (10 : ℝ) ^ Emin < |realFn f (X n c e)| := by
-  obtain ⟨T, hTpos, hT, hF⟩ := trueValue_sound f n c e tn t hc0 hc hcert htv
+    (htv : trueValue f n c e = some (tn, t)) (hc : c < 10 ^ 35)
+    (h : judgeElem f (.fin n c e) r ne = .bad msg) :
+    GeneralViolation (realFn f (X n c e)) r := by
+  obtain ⟨T, hTpos, hT, hF⟩ := trueValue_sound f n c e tn t hspec hc htv
   rw [judgeElem_general f n c e _ ne tn t hspec hexact hhuge htv] at h
-  simp only [Val.isNaN, Val.isZero, Bool.false_eq_true, if_false, Bool.not_true, Bool.false_and] at h
-  have hw : withinUlps (.fin false 0 re) t = .bad msg := h
-  have hlo := withinUlps_lo_pos (Or.inr ⟨msg, hw⟩)
   have hFabs : |realFn f (X n c e)| = T := by
     rw [hF]; cases tn <;> simp [abs_of_pos hTpos]
-  rw [hFabs]
-  exact withinUlps_zero_bad hlo hT hw
-
-/-- a finite non-zero result judged `.ok` on the general path has the sign of the true value and is within
-    one ulp (spacing at the upper end of the enclosure) plus the width of the enclosure of it -/
-theorem judge_ok_finite (rn : Bool) (rc : Nat) (re : Int)
-    (hspec : specialCase f (.fin n c e) = none)
-    (hexact : (if ne then exactCase f n c e else none) = none)
-    (hhuge : hugeArg f c e = false)
-    (htv : trueValue f n c e = some (tn, t))
-    (hc0 : c ≠ 0) (hc : c < 10 ^ 35) (hcert : CertOk f n c e) (hrc : rc ≠ 0)
-    (h : judgeElem f (.fin n c e) (.fin rn rc re) ne = .ok) :
-    rn = tn ∧
-    |X rn rc re - realFn f (X n c e)| ≤
-      (10 : ℝ) ^ (eT t) + ((t.m.hi : ℝ) - (t.m.lo : ℝ)) * (10 : ℝ) ^ t.k := by
-  obtain ⟨T, hTpos, hT, hF⟩ := trueValue_sound f n c e tn t hc0 hc hcert htv
-  rw [judgeElem_general f n c e _ ne tn t hspec hexact hhuge htv] at h
-  have hz : (Val.fin rn rc re).isZero = false := by
-    cases rc with
-    | zero => exact absurd rfl hrc
-    | succ k => rfl
-  simp only [Val.isNaN, Bool.false_eq_true, if_false, hz, Bool.not_false, Bool.true_and, Val.neg] at h
-  split at h
-  · exact absurd h (by simp)
-  · have hw : withinUlps (.fin false rc re) t = .ok := h
-    have hlo := withinUlps_lo_pos (Or.inl hw)
-    rename_i hsgn
-    have hsame : rn = tn := by simpa using hsgn
-    refine ⟨hsame, ?_⟩
-    have hval : X rn rc re - realFn f (X n c e) = (if tn then -1 else 1) * ((rc : ℝ) * (10 : ℝ) ^ re - T) := by
-      rw [hF, X_eq, hsame]; cases tn <;> simp only [if_true, if_false, Bool.false_eq_true] <;> ring
-    have habs : |X rn rc re - realFn f (X n c e)| = |(rc : ℝ) * (10 : ℝ) ^ re - T| := by
-      rw [hval, abs_mul]; cases tn <;> simp
-    rw [habs]
-    have := withinUlps_fin_ok (n := false) hrc hlo (le_refl 0) hT hw
-    simpa using this
-
-/-- an infinite result judged `.bad` on the general path: it has the wrong sign, or the lower end of the
-    enclosure is below `10^(Emax+31)`, or `|f(x)|` plus one ulp is below the largest finite Decimal -/
-theorem judge_bad_inf (rn : Bool) (msg : String)
-    (hspec : specialCase f (.fin n c e) = none)
-    (hexact : (if ne then exactCase f n c e else none) = none)
-    (hhuge : hugeArg f c e = false)
-    (htv : trueValue f n c e = some (tn, t))
-    (hc0 : c ≠ 0) (hc : c < 10 ^ 35) (hcert : CertOk f n c e)
-    (h : judgeElem f (.fin n c e) (.inf rn) ne = .bad msg) :
-    rn ≠ tn ∨
-    (t.m.lo : ℝ) * (10 : ℝ) ^ t.k < (10 : ℝ) ^ (Emax + 31) ∨
-    |realFn f (X n c e)| + (10 : ℝ) ^ (eT t) < (Cmax : ℝ) * (10 : ℝ) ^ Emax := by
-  obtain ⟨T, hTpos, hT, hF⟩ := trueValue_sound f n c e tn t hc0 hc hcert htv
-  rw [judgeElem_general f n c e _ ne tn t hspec hexact hhuge htv] at h
-  simp only [Val.isNaN, Val.isZero, Bool.false_eq_true, if_false, Bool.not_false, Bool.true_and, Val.neg] at h
-  split at h
-  · rename_i hsgn
-    left; simpa using hsgn
-  · right
-    have hw : withinUlps (.inf false) t = .bad msg := h
+  have hFpos : (0 < realFn f (X n c e)) ↔ tn = false := by
+    rw [hF]; cases tn <;> simp [hTpos, hTpos.le]
+  match r with
+  | .nan _ _ => trivial
+  | .inf rn =>
+    simp only [Val.isNaN, Val.isZero, Bool.false_eq_true, if_false, Bool.not_false, Bool.true_and,
+      Val.neg] at h
+    show _ ∨ _ ∨ _
+    split at h
+    · rename_i hs
+      left
+      have hne : rn ≠ tn := by simpa using hs
+      rw [hFpos]; cases rn <;> cases tn <;> simp_all
+    · have hw : withinUlps (.inf false) t = .bad msg := h
+      have hlo := withinUlps_lo_pos (Or.inr ⟨msg, hw⟩)
+      rw [hFabs]
+      rcases withinUlps_inf_bad hlo (le_refl 0) hT hw with h1 | h1
+      · right; left; exact h1
+      · right; right
+        have := pow_ulp_le hT hlo
+        simp only [Rat.cast_zero, zero_mul, add_zero] at h1
+        linarith
+  | .fin rn 0 re =>
+    simp only [Val.isNaN, Val.isZero, Bool.false_eq_true, if_false, Bool.not_true, Bool.false_and] at h
+    have hw : withinUlps (.fin false 0 re) t = .bad msg := h
     have hlo := withinUlps_lo_pos (Or.inr ⟨msg, hw⟩)
-    have hFabs : |realFn f (X n c e)| = T := by
-      rw [hF]; cases tn <;> simp [abs_of_pos hTpos]
+    show _ < _
     rw [hFabs]
-    exact withinUlps_inf_bad hlo hT hw
+    have h1 := withinUlps_zero_bad hlo (le_refl 0) hT hw
+    have := pow_ulp_le hT hlo
+    simp only [Rat.cast_zero, zero_mul, add_zero] at h1
+    linarith
+  | .fin rn (rc + 1) re =>
+    simp only [Val.isNaN, Val.isZero, Bool.false_eq_true, if_false, Bool.not_false, Bool.true_and,
+      Val.neg] at h
+    show _ ∨ _ ∨ _ ∨ _
+    have hRpos : (0 : ℝ) < ((rc + 1 : ℕ) : ℝ) * (10 : ℝ) ^ re := by positivity
+    split at h
+    · rename_i hs
+      left
+      have hne : rn ≠ tn := by simpa using hs
+      rw [hF, X_signed]
+      cases rn <;> cases tn <;> simp_all
+    · rename_i hs
+      have hsame : rn = tn := by simpa using hs
+      have hw : withinUlps (.fin false (rc + 1) re) t = .bad msg := h
+      have hlo := withinUlps_lo_pos (Or.inr ⟨msg, hw⟩)
+      have habs : |X rn (rc + 1) re - realFn f (X n c e)| = |((rc + 1 : ℕ) : ℝ) * (10 : ℝ) ^ re - T| := by
+        rw [hF, X_signed, hsame]; exact abs_signed_sub tn _ _
+      rw [habs, hFabs]
+      right
+      have := pow_ulp_le hT hlo
+      rcases withinUlps_fin_bad (Nat.succ_ne_zero rc) hlo (le_refl 0) hT hw with h1 | h1 | h1
+      · left
+        simp only [Rat.cast_zero, zero_mul, add_zero] at h1
+        linarith
+      · right; left; exact h1
+      · right; right; exact h1
+
+/-- an accepted result has the right sign and is within one unit plus the enclosure width -/
+theorem general_ok_sound (r : Val)
+    (hspec : specialCase f (.fin n c e) = none)
+    (hexact : (if ne then exactCase f n c e else none) = none)
+    (hhuge : hugeArg f c e = false)
+    (htv : trueValue f n c e = some (tn, t)) (hc : c < 10 ^ 35)
+    (h : judgeElem f (.fin n c e) r ne = .ok) :
+    GeneralOk (realFn f (X n c e)) t r := by
+  obtain ⟨T, hTpos, hT, hF⟩ := trueValue_sound f n c e tn t hspec hc htv
+  rw [judgeElem_general f n c e _ ne tn t hspec hexact hhuge htv] at h
+  have hFabs : |realFn f (X n c e)| = T := by
+    rw [hF]; cases tn <;> simp [abs_of_pos hTpos]
+  have hFneg : (realFn f (X n c e) < 0) ↔ tn = true := by
+    rw [hF]; cases tn <;> simp [hTpos, hTpos.le]
+  match r with
+  | .nan _ _ =>
+    simp only [Val.isNaN, if_true] at h
+    exact absurd h (by simp)
+  | .inf rn =>
+    simp only [Val.isNaN, Val.isZero, Bool.false_eq_true, if_false, Bool.not_false, Bool.true_and,
+      Val.neg] at h
+    split at h
+    · exact absurd h (by simp)
+    · rename_i hs
+      have hsame : rn = tn := by simpa using hs
+      have hw : withinUlps (.inf false) t = .ok := h
+      have hlo := withinUlps_lo_pos (Or.inl hw)
+      refine ⟨by rw [hFneg, hsame], ?_⟩
+      rw [hFabs]
+      have hk : (0 : ℝ) < (10 : ℝ) ^ t.k := zpow_pos (by norm_num) _
+      rcases (withinUlps_inf_cases false t 0 hlo).2 hw with h1 | h1
+      · left
+        have h2 := sciMem_ge_lo hT
+        have h3 := mul_le_mul_of_nonneg_right (lo_ge_pow_ilog10 hlo) hk.le
+        rw [← zpow_add₀ (by norm_num)] at h3
+        have h4 : (10 : ℝ) ^ (Emax + 37) ≤ (10 : ℝ) ^ (ilog10 t.m.lo + t.k) :=
+          zpow_le_zpow_right₀ (by norm_num) (by omega)
+        linarith
+      · right
+        have hb' : (((Cmax : ℚ) * pow10 (Emax - t.k) : ℚ) : ℝ) ≤
+            ((t.m.hi + t.m.hi * 0 + pow10 (eT t - t.k) : ℚ) : ℝ) := by exact_mod_cast h1
+        have := mul_le_mul_of_nonneg_right hb' hk.le
+        rw [scaled_cast] at this
+        push_cast at this
+        have e1 := unit_cast (eT t) t.k
+        have h2 := sciMem_ge_lo hT
+        nlinarith
+  | .fin rn 0 re =>
+    simp only [Val.isNaN, Val.isZero, Bool.false_eq_true, if_false, Bool.not_true, Bool.false_and] at h
+    have hw : withinUlps (.fin false 0 re) t = .ok := h
+    have hlo := withinUlps_lo_pos (Or.inl hw)
+    show _ ≤ _
+    rw [hFabs]
+    have := withinUlps_zero_ok hlo (le_refl 0) hT hw
+    simpa using this
+  | .fin rn (rc + 1) re =>
+    simp only [Val.isNaN, Val.isZero, Bool.false_eq_true, if_false, Bool.not_false, Bool.true_and,
+      Val.neg] at h
+    split at h
+    · exact absurd h (by simp)
+    · rename_i hs
+      have hsame : rn = tn := by simpa using hs
+      have hw : withinUlps (.fin false (rc + 1) re) t = .ok := h
+      have hlo := withinUlps_lo_pos (Or.inl hw)
+      refine ⟨by rw [hFneg, hsame], ?_⟩
+      have habs : |X rn (rc + 1) re - realFn f (X n c e)| = |((rc + 1 : ℕ) : ℝ) * (10 : ℝ) ^ re - T| := by
+        rw [hF, X_signed, hsame]; exact abs_signed_sub tn _ _
+      rw [habs]
+      have := withinUlps_fin_ok (n := false) (Nat.succ_ne_zero rc) hlo (le_refl 0) hT hw
+      simpa using this
 
 end
 
